@@ -113,7 +113,7 @@ CliInit == [status |-> "Disconnected", updTick |-> 0, ents |-> EmptyFn, buf |-> 
             lastNotDisc |-> FALSE, panicked |-> FALSE]
 
 InitState ==
-    [srv |-> [tick |-> 0, frame |-> 0, lastRun |-> 0, running |-> TRUE, wasRunning |-> FALSE, tickChanged |-> TRUE,
+    [srv |-> [tick |-> 0, frame |-> 0, lastRun |-> 0, running |-> TRUE, wasRunning |-> FALSE, tickChanged |-> TRUE, tickMaybe |-> FALSE,
               timerAcc |-> 0, now |-> 0,
               world |-> [e \in Ent |-> EntInit],
               remEv |-> [e \in Ent |-> {}],
@@ -463,6 +463,13 @@ SrvFramePre(st, doTick, dt) ==
 
 WillReplicate(stPre) == stPre.srv.running /\ stPre.srv.tickChanged
 
+\* `reset` (which writes the tick) and the run condition of send_replication are not ordered within the
+\* frame in which the server stops: whether the next frame sees the tick as changed depends on the order
+\* the scheduler happens to pick (it differs between apps with and without sync_related_entities).
+\* `visible` resolves it; it only matters in the frame after the one in which `reset` ran.
+ResolveReset(stPre, doTick, visible) ==
+    IF stPre.srv.tickMaybe /\ ~visible THEN [stPre EXCEPT !.srv.tickChanged = doTick] ELSE stPre
+
 \* the run condition is evaluated (and its change tick consumed) every frame
 SrvFramePost(stPre, parts, graphs) ==
     LET r == IF WillReplicate(stPre) THEN Replicate(stPre, stPre.srv.frame, parts, graphs)
@@ -470,9 +477,9 @@ SrvFramePost(stPre, parts, graphs) ==
         \* `reset` runs in the first frame after the server stopped: tick back to 0 (which marks it
         \* changed), buffers cleared, client entities despawned
         justStopped == stPre.srv.wasRunning /\ ~stPre.srv.running
-        s1 == [r.st EXCEPT !.srv.tickChanged = FALSE, !.srv.wasRunning = stPre.srv.running]
+        s1 == [r.st EXCEPT !.srv.tickChanged = FALSE, !.srv.tickMaybe = FALSE, !.srv.wasRunning = stPre.srv.running]
         s2 == IF justStopped
-              THEN [s1 EXCEPT !.srv.tick = 0, !.srv.tickChanged = TRUE,
+              THEN [s1 EXCEPT !.srv.tick = 0, !.srv.tickChanged = TRUE, !.srv.tickMaybe = TRUE,
                               !.srv.despawnBuf = IF Impl.staleBuffersOnRestart THEN @ ELSE EmptyFn,
                               !.srv.removalBuf = IF Impl.staleBuffersOnRestart THEN @ ELSE EmptyFn,
                               !.srv.cl = [c \in Client |-> SrvClientInit]]
@@ -482,6 +489,9 @@ SrvFramePost(stPre, parts, graphs) ==
 \* full result record: [st, partsOK, ran]
 SrvFrameR(st, doTick, dt, parts, graphs) ==
     Then(SrvFramePre(st, doTick, dt), LAMBDA pre : SrvFramePost(pre, parts, graphs))
+\* the same with the scheduler's choice about a pending reset made explicit
+SrvFrameRV(st, doTick, dt, parts, graphs, visible) ==
+    Then(SrvFramePre(st, doTick, dt), LAMBDA pre : SrvFramePost(ResolveReset(pre, doTick, visible), parts, graphs))
 
 \* the frame with the canonical split (one mutate message per client)
 SrvFrameCanonR(st, doTick, dt) == SrvFrameR(st, doTick, dt, <<>>, 0)
